@@ -130,7 +130,7 @@ PROPS = {
         trusted=SEARCH_TRUST,
         assumptions=[],
         open=["conjunct reordering for distinctfd atoms (outside the fragment of C04_fd_conj_comm) is carried by the correspondence and the oracle",
-              "lifting C04_tree from atom lists to conjunctions nested in conde/fresh uses the path decomposition, checked by the oracle only"],
+              "reordering inside programs with relation calls / committed choice (outside the conj/conde/fresh programs of C04_program_comm) is checked by the oracle only"],
     ),
     "C09": dict(
         title="query iteration: lazy, fused, deterministic",
